@@ -7,6 +7,8 @@ from ..deriv import compare
 from ..harness import Sub, Violation
 from ..refs import gemini_ref as R
 
+QUICK_SCALE = 2  # quick budgets below are multiplied by this (kept at about half a minute on 8 processes)
+
 RULE = ("derivatives taken in logit space: P=softmax(L), L = scale*Z with scale in {0.1,1,4,10,20,40} (soft to saturated, "
         "clipping active at the largest scales); analytic <P*(g-<P,g>_row),U> vs Richardson central difference of "
         "t->score(softmax(L+tU)); directions where the one-sided slopes do not converge (kinks) are skipped and counted. "
